@@ -261,7 +261,7 @@ func TestVF_C15(t *testing.T) {
 		"distinct = hash of layout+query; non-trivial = at least two resolutions allowed and populated and at least one block selected")
 	r.Assume("max resolution >= 0 (the query API rejects negative values; getFor indexes out of range for them)")
 	r.Assume("block MinTime < MaxTime")
-	n := r.N(20000, 1000000)
+	n := r.N(20000, 300000)
 	r.Require(int64(n)*10, n)
 	for c := 0; c < n; c++ {
 		if !r.Want(c) {
